@@ -40,7 +40,7 @@ CATALOG["remove-aliased-function"] = m_remove_aliased_function
 
 
 def plan(tier):
-    return {"n": 250 if tier == "quick" else 5000, "floor": 60 if tier == "quick" else 1200}
+    return {"n": 250 if tier == "quick" else 1000, "floor": 60 if tier == "quick" else 240}
 
 
 def rule(tier):
